@@ -19,7 +19,7 @@ Local Open Scope Z_scope.
 
 Inductive pfrag :=
 | PDec (nid : N) (kind name : string)
-| PTok
+| PTok (len : Z)
 | PStr (len : Z) (multi : bool)        (* multi: a raw string with embedded line breaks *)
 | PBad (len : Z)
 | PCom (d : dec)
@@ -111,7 +111,7 @@ Fixpoint fstmt (t : tree) (fk : list (string * kid ftree)) (r : fres) (s : gstmt
     end
   | GTok x p =>
     match ftok_len t fk x with
-    | Some l => let c := at_pos t fk p (f_cur r) in femit r c PTok (c + l)
+    | Some l => let c := at_pos t fk p (f_cur r) in femit r c (PTok l) (c + l)
     | None => ferr r
     end
   | GStr v p =>
@@ -262,7 +262,7 @@ Definition classify (stmts decls : list string) (kind : string) : nclass :=
 Definition to_link (stmts decls : list string) (st en : list (N * Z)) (x : Z * pfrag * Z) : Z * frag :=
   match x with
   | (pos, PDec nid kind name, _) => (pos, FDec nid (classify stmts decls kind) name (nget st nid) (nget en nid))
-  | (pos, PTok, _) | (pos, PStr _ _, _) => (pos, FTok)
+  | (pos, PTok _, _) | (pos, PStr _ _, _) => (pos, FTok)
   | (pos, PBad _, _) => (pos, FBad)
   | (pos, PCom d, ind) => (pos, FCom d ind None)
   | (pos, PNl e, _) => (pos, FNl e None)
